@@ -80,24 +80,9 @@ def run(ctx):
         st = build_state(K, m, labels, spreads)
         before = tu.snapshot_state(st)
         before_ids = (id(st.clusters), [id(x) for x in st.clusters], id(st.point_labels))
-        draws, order = [], []
-
-        class Rand:
-            def __getattr__(self, name):
-                return getattr(pyrandom, name)
-
-            def sample(self, population, k):
-                out = pyrandom.sample(population, k)
-                draws.append((len(population), list(out)))
-                return out
-        orig_move = cm._move_random_points
-
-        def move(model, donor, recipient):
-            order.append((int(donor), int(recipient)))
-            return orig_move(model, donor, recipient)
         pyrandom.seed(c["seed"])
         err = None
-        with tu.patched(cm, "random", Rand()), tu.patched(cm, "_move_random_points", move):
+        with tu.record_label_assignments() as assigned:
             try:
                 out = cm.repopulate_empty_clusters(st)
             except RuntimeError as e:
@@ -109,6 +94,10 @@ def run(ctx):
                 impl.append(None)
                 lines.append(f"needy {K} {show_list(labels)}")
                 continue
+        # the refills, reconstructed from the labellings assigned through the public label setter
+        moves = tu.moves_from_assignments(labels, [lab for (_sid, lab) in assigned if lab is not None])
+        order = [(d, r_) for (d, r_, _p, _l, _n) in moves]
+        draws = [(n_, pos) for (_d, _r, pos, _l, n_) in moves]
         # ---- caller's state not modified
         after = tu.snapshot_state(st)
         if not tu.snapshots_equal(before, after) or before_ids != (id(st.clusters), [id(x) for x in st.clusters], id(st.point_labels)):
